@@ -98,8 +98,52 @@ def run_all():
     return bad
 
 
+PIN_MUTANTS = [
+    ("pin-D26-revert", "_core.py", "        info.set_server_if_missing()\n        self.generate_service_broadcast(info, None).packets()\n        self.registry.async_update(info)",
+     "        self.generate_service_broadcast(info, None).packets()\n        self.registry.async_update(info)"),
+    ("pin-server_key-not-lower", "_services/info.py", "        self.server_key = server.lower() if server else None", "        self.server_key = server if server else None"),
+    ("pin-bool-on-record", "_dns.py", "    __slots__ = ('key', 'name', 'type', 'class_', 'unique')\n",
+     "    __slots__ = ('key', 'name', 'type', 'class_', 'unique')\n\n    def __bool__(self):\n        return self.type != 0\n"),
+]
+
+
+def run_pin_probes(repo):
+    """the source pins (tools/fn_pins.py) hold on the tree and fail on three single-edit copies of it (an edit whose text is no longer
+    in the source is skipped)"""
+    import shutil
+
+    import fn_pins
+
+    bad = []
+    common, specs = gen_fn.load_specs()
+
+    def check(root):
+        fn_pins.check_truthy(root, common)
+        for sp in specs:
+            fn_pins.check_spec(root, sp)
+
+    with tempfile.TemporaryDirectory() as tmp:
+        for name, rel, old, new in PIN_MUTANTS:
+            src = pathlib.Path(repo) / "src" / "zeroconf" / rel
+            try:
+                text = src.read_text()
+            except OSError:
+                continue
+            if text.count(old) != 1:
+                continue
+            root = pathlib.Path(tmp) / name
+            shutil.copytree(pathlib.Path(repo) / "src", root / "src", ignore=shutil.ignore_patterns("__pycache__", "*.so", "*.c"))
+            (root / "src" / "zeroconf" / rel).write_text(text.replace(old, new))
+            try:
+                check(str(root))
+                bad.append("%s: the pins accept the mutant" % name)
+            except fn_pins.PinFail:
+                pass
+    return bad
+
+
 if __name__ == "__main__":
-    bad = run_all()
+    bad = run_all() + run_pin_probes("/repo")
     for b in bad:
         print("PROBE FAILED", b)
     print("%d probes, %d failed" % (len(PROBES), len(bad)))
